@@ -48,20 +48,29 @@ type SchedSpec struct {
 	TimerProb float64 `json:"timer_prob,omitempty"`
 	Bias      float64 `json:"bias,omitempty"`
 	MaxSteps  uint64  `json:"max_steps,omitempty"`
+	StallG    int     `json:"stall_g,omitempty"`  // stall: which client (1-based) is the slow one
+	StallAt   uint64  `json:"stall_at,omitempty"` // stall: at which of its decision points it is suspended
 }
 
 func (s SchedSpec) config(choices []int32) simrt.Config {
 	return simrt.Config{Lenient: os.Getenv("VERIF_LENIENT") == "1", Seed: s.Seed, Strategy: s.Strategy, PCTDepth: s.PCTDepth, PCTSteps: s.PCTSteps,
-		TimerProb: s.TimerProb, SwitchBias: s.Bias, MaxSteps: s.MaxSteps, Replay: choices, KeepLog: 60}
+		TimerProb: s.TimerProb, SwitchBias: s.Bias, MaxSteps: s.MaxSteps, Replay: choices, KeepLog: 60, StallG: s.StallG, StallAt: s.StallAt}
 }
 
 func genSched(r *simrt.Rand, estSteps int) SchedSpec {
 	s := SchedSpec{Seed: r.Uint64(), MaxSteps: 400_000}
-	switch r.Pick(5, 4, 2) {
+	switch r.Pick(5, 4, 2, 3) {
+	case 3:
+		// one slow client: suspended at one of its own decision points until nothing else can run
+		s.Strategy = "stall"
+		s.Bias = []float64{0.5, 0.9, 0.97}[r.Intn(3)]
+		s.TimerProb = 0.01
+		s.StallG = 1 + r.Intn(3)
+		s.StallAt = uint64(r.Intn(estSteps/2 + 1))
 	case 0:
 		s.Strategy = "uniform"
 		s.TimerProb = []float64{0, 0.01, 0.05, 0.2}[r.Intn(4)]
-		s.Bias = []float64{0, 0.5, 0.8, 0.95}[r.Intn(4)]
+		s.Bias = []float64{0, 0.5, 0.8, 0.95, 0.99}[r.Intn(5)] // 0.99: long uninterrupted stretches, one goroutine overtakes another's whole operation
 	case 1:
 		s.Strategy = "pct"
 		s.PCTDepth = 1 + r.Intn(3)
